@@ -62,8 +62,15 @@ def spaced(d):
 
 
 def expressible(d):
-    r, t = parsing.impl_parse(spaced(d))
-    return t is not None and t == common.load_tree(d)
+    """the tree is what the documented syntax gives for some text: decided by the independent tokenizer and grammar of
+    the C03 check on a fully spaced rendering -- not by the implementation's parser, which is part of what is judged
+    (seeded C13-H: field names unescaped by the parser made every tree with an escaped name "inexpressible")"""
+    from . import c03
+    toks = parsing.spec_lex(spaced(d))
+    if toks is None:
+        return False
+    spec, _ = c03.spec_parse(toks)
+    return spec is not None and spec == c03.skeleton(d)
 
 
 def oracle(ctx, d, out, info, check_roundtrip):
